@@ -15,15 +15,19 @@ BASE, OFF = "/tmp/mut", 0
 args = sys.argv[1:]
 if args and args[0] == "--round2": BASE, OFF, args = "/tmp/mut2", 2, args[1:]     # second round: /tmp/mut2/<ID>, filed as <ID>-3 / <ID>-4
 if args and args[0] == "--round3": BASE, OFF, args = "/tmp/mut4", 4, args[1:]     # third round: /tmp/mut4/<ID>, filed as <ID>-5 / <ID>-6
+if args and args[0] == "--round4": BASE, OFF, args = "/tmp/mut5", 6, args[1:]     # fourth round: /tmp/mut5/<ID>, filed as <ID>-7 / <ID>-8
 for mid in args:
     wt = "%s/%s" % (BASE, mid); outd = "%s/%s.out" % (BASE, mid)
     for n in (1, 2):
         mp = os.path.join(outd, "meta%d.json" % n)
         if not os.path.exists(mp): continue
         meta = json.load(open(mp)); patch = os.path.join(outd, "patch%d.diff" % n)
+        pre2 = re.search(r"\(demo crate = (\S+) copied to <worktree>/(\S+?)\)", meta["demo_cmd"])
         pre = re.search(r"\(after cp -r (\S+) <repo root>\)", meta["demo_cmd"])
         cmd = re.split(r"\s{2,}\(|\s+#", meta["demo_cmd"])[0].strip()
         if pre: cmd = "cp -r %s %s/ && " % (pre.group(1), wt) + cmd
+        if pre2: cmd = "mkdir -p %s/%s && rm -rf %s/%s && cp -r %s %s/%s && " % (wt, os.path.dirname(pre2.group(2)), wt, pre2.group(2), pre2.group(1), wt, pre2.group(2)) + cmd
+        cmd = re.sub(r"git apply \S+patch\d\.diff\s*;\s*", "", cmd)
         cmd = re.sub(r";\s*git checkout -- \S+\s*$", "", cmd)
         cmd = re.sub(r"\(cd \$REPO && git apply [^)]*\) && ", "", cmd)   # the script applies / removes the patch itself
         cmd = re.sub(r"cd \S+ && git apply \S+ \(omit for the clean run\); ", "", cmd)
